@@ -42,7 +42,8 @@ TEXT = {
         "level": "Proof (partial). Proved in Lean for every byte string: the lexer (both modes) and the statement splitter terminate, never hit a Go run-time panic, and report errors with in-range positions. "
                  "Proved over facts regenerated from parser.go/parse_helpers.go/lexer.go/split.go on every run (call graph, defer/recover shapes): no *Error panic escapes any Parse* entry point — every raise site reachable from an entry point "
                  "lies under a deferred recover whose handler cannot raise (MF.Props.C03.no_escape, entry_no_escape; the static premise is re-decided by the kernel on the regenerated tables). "
-                 "Not proved: termination of the productions and absence of run-time panics (nil, index) in them — every Parse* call of the predicate runs under recover with a deadline over corpus, probes, mutations, single-token edits, grafts and soups.",
+                 "Proved for the ParseType entry point (model MF/Model/TypeParse.lean, tied to memefish.ParseType by the TYPE channel): on EVERY token list, accepted or rejected, the model terminates - it answers ok or raise, never runs out of fuel, with any fuel >= 3 * (number of tokens, '>>' and '<>' counted twice) + 2, and the answer is the same for every such fuel (MF.Props.C03.parseType_terminates, parseType_fuel_stable, parseType_decides); with lexer totality, ParseType's model returns on every byte string (typeRun_total). "
+                 "Not proved: termination of the other productions and absence of run-time panics (nil, index) in them — every Parse* call of the predicate runs under recover with a deadline over corpus, probes, mutations, single-token edits, grafts and soups.",
         "design_ref": "DESIGN.md §4 C03",
         "note": "Trusted: lexer/splitter models (LEX, SPLIT, POS channels), the facts translator tools/extract/parserfacts.go and the abstraction MF/Model/Recovery.lean (only *Error panics modelled).",
         "technique": "Lean 4 proof (byte-level totality; big-step recovery calculus with a kernel-decided reachability analysis over regenerated facts) + correspondence channels + predicate on the implementation",
